@@ -182,7 +182,8 @@ int main(int argc, char** argv)
       }
       if (ops[k].kind == 'P')
       {
-        last_rc = do_proc(sc, &mainr, &ops[k]);
+        int prc = do_proc(sc, &mainr, &ops[k]);
+        if (prc != ERROR_COULD_NOT_ATTACH_TO_PROCESS) last_rc = prc;   // a failed attach does not touch the scanner: a suspended scan stays resumable
         main_tr[k] = strdup(mainr.t.buf);
         YR_SCANNER* scp = mk_scanner(rules, flags, timeout, &refr);
         do_proc(scp, &refr, &ops[k]);
